@@ -913,6 +913,7 @@ func TestCheck(t *testing.T) {
 		"(name, name-case, qtype, qclass, DO, EDNS presence, AD, CD, RD; ECS cache also client country, ASN, family, ECS presence/subnet/location/declined) x both orders, history [first, second, first, second]; " +
 		"(history) random walks of 8-15 requests over a base and all its variants; (cacheability) every response class x qtype x config asked three times; " +
 		"(age-sweep) entries with original TTL 1-3 s probed after real sleeps up to TTL+1 s, hundreds of cases sleeping in parallel on one shared instance per config; " +
+		"(sibling-subnets) ECS cache, subnet-dependent answers (scope = source length): two client locations whose GeoIP subnets are siblings under one prefix length (IPv4 /12 /19 /20 /21 /23, IPv6 /44 /52 /57 /61; controls /8 /16 /24, /48 /56 /64), location from the client address or from its ECS option, history [A, B, A, B]; " +
 		"(wired) histories of 10-17 names asked three times on an instance whose dnsmsg.Cloner is shared with message constructors that build blocked / rewritten answers between the cache accesses and into which every written response is disposed (production wiring); " +
 		"(frontend) the middleware behind the real plain-DNS server with the cloner as Disposer: a UDP query whose answer the server truncates, then the same question over TCP / with a large EDNS size (and TCP, truncated UDP, TCP), compared with a cold server's answer; " +
 		"(concurrent) 16-48 goroutines over a ~100-request alphabet of 1-2 s TTL names on one shared instance per config under the race detector. " +
@@ -928,7 +929,7 @@ func TestCheck(t *testing.T) {
 		name string
 		f    func()
 	}{{"info", m.phaseInfo}, {"separation+history", m.phaseSeparation}, {"cacheability", m.phaseCacheability},
-		{"wired", m.phaseWired}, {"frontend", m.phaseFrontend}, {"age-sweep", m.phaseAges}, {"concurrent", m.phaseConcurrent}} {
+		{"sibling-subnets", m.phaseSiblings}, {"wired", m.phaseWired}, {"frontend", m.phaseFrontend}, {"age-sweep", m.phaseAges}, {"concurrent", m.phaseConcurrent}} {
 		st := now()
 		ph.f()
 		phaseWall[ph.name] = (now() - st).Seconds()
@@ -960,6 +961,9 @@ func TestCheck(t *testing.T) {
 		r.Require("frontend_truncated_then_hit_"+cn, 10)
 		r.Require("frontend_final_step_from_cache_"+cn, 20)
 	}
+	r.Require("sibling_separation_observed:unaligned", 30)
+	r.Require("sibling_separation_observed:octet-aligned", 20)
+	r.Require("sibling_own_entries_hit:unaligned", 30)
 	r.Require("wired_constructed_answers", 800)
 	r.Require("cacheable_controls_hit", 100)
 	r.Require("uncacheable_refetched_every_time", 200)
